@@ -134,6 +134,12 @@ def build_doc(rng, ch, pay):
         w = len(inner) + 2
         return gen.text_of(['+' + '-' * w + '+', '|' + inner + '  |', '+' + '-' * w + '+'])
     if ch == 'tag_invalid':
+        if rng.random() < 0.4:
+            # a quoted tag inside the shape, every punctuation character of the payload backslash-escaped
+            esc = ''.join(('\\' + c) if not c.isalnum() and c not in ' \n\r' else c for c in pay.replace('\n', ' '))
+            inner = ' "{a' + esc + '}" "{' + esc + '}"'
+            w = len(inner) + 2
+            return gen.text_of(['.' + '-' * w + '.', '|' + inner + '  |', "'" + '-' * w + "'"])
         inner = ' {' + pay + '} {a' + pay + '} {' + pay + ',b}'
         w = len(inner) + 2
         return gen.text_of(['+' + '-' * w + '+', '|' + inner + '  |', '+' + '-' * w + '+'])
